@@ -53,8 +53,91 @@ CHECKS = [
         "contracts are C03/C07/C08/C09); Result.__init__ is a record constructor; samplers are havoc (C09); reals for floats.",
         "contract-based deductive verification: ast->z3 on the real source, EUF term equality with havoc RNG and Skolemised loop summaries",
         "DESIGN.md C04"),
+    chk('C01', 'other',
+        'Engine A proves for all inputs the option/noise plumbing of calc_rdm: in the list branch RDM i is calc_rdm(dataset[i]) with EVERY option forwarded (noise, noise[i]), combined by from_partials/concat; single-dataset dispatch passes each method its options; alphabetical re-sort exactly when a descriptor is given; unknown methods raise. Engine B runs the real calc_rdm on sympy object arrays and proves the euclidean / correlation / mahalanobis (symbolic precision LL^T) / poisson (symbolic prior) formulas on condition means for all real data at small designs incl. unbalanced ones, int and str labels, remove_mean. Movies, invariances, multi-step sequences, descriptors: bounded oracle tier.',
+        'estimators, _build_rdms, from_partials, concat, sort_by are uninterpreted in A (own contracts under C10/bounded tier); B: numpy proxy overrides listed in evidence; shapes bounded (stated)',
+        'contract-based deductive verification: sidecar contracts on the real functions, ast->z3 VC generation on the real source (re-read every run), external z3 portfolio + symbolic execution of the real functions on sympy arrays (engine B) + bounded run-time oracles',
+        'DESIGN.md C01'),
+    chk('C02', 'other',
+        'Engine B executes the real calc_rdm_crossnobis / calc_rdm_poisson_cv on sympy object arrays (only the module-global np is proxied) and decides by normal form, for ALL real data at each listed fold-balanced design (C<=3, M<=3, R<=2; three row orders; int/str folds): value = mean over ordered pairs of distinct folds of the between-fold bilinear form / P, with identity, one symbolic symmetric precision, one precision per fold (pair precision = inverse of the averaged covariances), remove_mean on both sides, regularised log rates for poisson_cv. Refutations are replayed on the unpatched function with floats. Larger designs, invariances, default fold descriptor: bounded oracle tier.',
+        'bounded in shape (designs listed in evidence); floats as reals; np.linalg.inv / log proxies assumed; average_dataset_by / sort_by executed for real (not assumed)',
+        'symbolic execution of the real functions on sympy object arrays with spec identities decided by normal form (bounded shapes, all real values) + bounded run-time oracles',
+        'DESIGN.md C02'),
+    chk('C03', 'other',
+        "Engine A proves compare()'s dispatch table (method -> measure, sigma_k forwarded to exactly the whitened/Riemannian measures, unknown -> ValueError) and the (i,j) pairing of _all_combinations for all stack sizes; z3 proves the tau-a counting identity and the clamp lemma; engine B proves the cosine formula and (i,j) placement on symbolic positive stacks. Every measure against its literal definition (rank measures exhaustively over weak orders of <= 5-6 entries, whitened measures against a literal V, Bures via sqrtm), symmetry, range, permutation invariance, input forms: bounded oracle tier.",
+        'compare_* bodies (einsum/eigh/kendall/cg) are not symbolically executed except cosine; scipy internals assumed; bounded tier sizes in evidence',
+        'contract-based deductive verification: sidecar contracts on the real functions, ast->z3 VC generation on the real source (re-read every run), external z3 portfolio + engine B + bounded run-time oracles',
+        'DESIGN.md C03'),
+    chk('C06', 'other',
+        'Engine A + z3 (NRA) prove on the real _dual_bootstrap (per entry, np.maximum/minimum element-wise) for ALL real variances and counts > 1: result <= two-factor variance, >= each (corrected) single-factor variance that is itself below it, >= 0; _correct_1d applies exactly n/(n-1) with n = min / the one given / none. Lemma layer: two-sided t p-values lie in [0,1], are symmetric with unit diagonal and monotone in |t| over the assumed cdf contract; bootstrap pair p in [1/N,1]. Classical t identities for eval_fixed, contrasts, NaN-aware means, rank-sum / bootstrap tests, equivariance: bounded oracle tier.',
+        'scipy.stats.t.cdf assumed monotone with cdf(0)=1/2; extract_variances contrast slicing decided by the bounded tier',
+        'contract-based deductive verification: sidecar contracts on the real functions, ast->z3 VC generation on the real source (re-read every run), external z3 portfolio + z3 lemma layer + bounded run-time oracles',
+        'DESIGN.md C06'),
+    chk('C07', 'other',
+        'Engine A proves the leave-one-group-out dataflow of boot_noise_ceiling (fold i compares group i with pool_rdm of the OTHER groups / of all) and of cv_noise_ceiling (pooled ceil_set[f] resp. all RDMs at the test conditions vs test_f), both plain means over folds, for all inputs. Lean 4 + Mathlib lemma pooled_optimal: for unit vectors the sum direction maximises the mean cosine (hence no candidate beats the pooled RDM under the pooling contract), cos_scale_invariant. Pooling formula, rho-a optimality by exhaustive enumeration of weak orders, lower <= upper, invariances, missing entries: bounded oracle tier.',
+        'pool_rdm / compare uninterpreted in A; the Lean lemmas are stated over the pooling contract (mean of normalised vectors), which is checked only by the bounded tier; sets_leave_one_out_rdm contract from C05',
+        'contract-based deductive verification: sidecar contracts on the real functions, ast->z3 VC generation on the real source (re-read every run), external z3 portfolio + Lean/Mathlib lemma layer + bounded run-time oracles',
+        'DESIGN.md C07'),
+    chk('C08', 'exploration',
+        'Optimality of the fitters depends on BFGS / Brent / active-set convergence and is decided by bounded competitor search (random directions, local perturbations, grids, independently computed (NN)LS optimum, KKT certificate), labelled bounded. Deductive part: engine A proves by EUF non-interference that fit_regress / fit_regress_nn use the model ONLY through rdm_obj.subsample_pattern(pattern_descriptor, pattern_idx) (or the full rdm_obj) and the data only through pool_rdm(data, method).',
+        'optimiser convergence cannot be proved in this family; 10 open findings listed in known_findings.json',
+        'bounded run-time oracles with competitor search (stand-in) + EUF non-interference obligations from ast->z3 on the real fitters',
+        'DESIGN.md C08'),
+    chk('C09', 'other',
+        'Engine A proves for EVERY outcome of np.random.randint (havoc) that each sampler draws as many group values as there are distinct groups over the full range [0,#groups), every returned index is a group value, and the sample is exactly subsample / subsample_pattern of the source with the RETURNED indices. Multiplicity, NaN placement, descriptor gathering and order agreement of RDMs.subsample / subsample_pattern are decided by the bounded tier that ENUMERATES all draw vectors for n_rdm<=4, n_cond<=5.',
+        "uniformity of numpy's generator is an assumed contract (only a smoke test); subsample / subsample_pattern uninterpreted in A",
+        'contract-based deductive verification: sidecar contracts on the real functions, ast->z3 VC generation on the real source (re-read every run), external z3 portfolio with havoc for RNG + exhaustive bounded enumeration of draws',
+        'DESIGN.md C09'),
+    chk('C10', 'other',
+        'Lemma layer (z3): the condensed index is a bijection onto [0,n(n-1)/2) increasing in lexicographic order, row offsets, order-isomorphism of kept pairs under a monotone re-indexing. Engine A: the number of conditions is recovered from the vector length for EVERY size (both helpers; exact sqrt/ceil below 2^52 assumed). Per-operation behaviour against an abstract view with ghost ids (exhaustive short sequences, seeded long histories, concat / from_partials / permute_rdms domains): bounded oracle tier.',
+        'structural RDMs operations themselves are not symbolically executed; 9 open defect classes in known_findings.json',
+        'z3 lemma layer + ast->z3 obligations on the size helpers + model-based bounded histories',
+        'DESIGN.md C10'),
+    chk('C11', 'other',
+        'Engine A proves for all inputs that Dataset/TemporalDataset.sort_by gather the measurement rows and every obs descriptor by ONE stable argsort of the key and leave the other descriptors alone, and that subset_obs / subset_channel select measurements and the matching descriptors by ONE descriptor selection and pass the rest through. Splits, merges, binning, conversions, DataFrame round trip, histories against an abstract view with ghost ids: bounded oracle tier.',
+        'num_index / subset_descriptor / argsort(kind=stable) uninterpreted; 3 open findings',
+        'contract-based deductive verification: sidecar contracts on the real functions, ast->z3 VC generation on the real source (re-read every run), external z3 portfolio + model-based bounded histories',
+        'DESIGN.md C11'),
+    chk('C12', 'other',
+        'Static frame analysis of the real AST (flow-sensitive may-alias with bottom-up callee summaries) proves for the public callables without any may-store that no statement can store into memory reachable from an argument (146 of 223). The callables with may-store alarms and the whole independence (aliasing) clause are decided dynamically by the bounded fingerprint tier over the introspected public API; the 378 currently violating (function, aliasing kind) pairs are listed individually as known findings so that any new one is reported.',
+        'alias/copy classification table of numpy/stdlib operations; method calls resolved by name; property is widely violated on the unchanged tree (known findings)',
+        'static frame/alias analysis on the real source (frame conditions) + bounded fingerprint oracles over the introspected API',
+        'DESIGN.md C12'),
+    chk('C13', 'other',
+        'Engine A proves for all inputs that both NaN parsers (_parse_nan_vectors, compare._parse_input_rdms; arrays and RDMs) return normally ONLY if every row of both inputs has the mask of row 0 of the first, select by that mask, and raise ValueError otherwise. Entry-deleted equality for every measure and sigma_k, pooling, noise ceilings, regression, RDMs.mean weights, rescale: bounded oracle tier.',
+        'np.isnan / np.all uninterpreted; conjugate-gradient tolerance 1e-4 for whitened measures; 1 open finding (rescale default threshold)',
+        'contract-based deductive verification: sidecar contracts on the real functions, ast->z3 VC generation on the real source (re-read every run), external z3 portfolio + bounded run-time oracles',
+        'DESIGN.md C13'),
+    chk('C15', 'other',
+        "Engine X (light): the index arithmetic of the Cython kernel `calc` is extracted mechanically from the current similarity.pyx text on every run and proved in z3: every accumulator index lies inside the malloc'ed buffers (memory safety of values/weights), cross pairs go to n + condensed index (the squareform order the Python side assumes), C division operands are non-negative, buffer size n + n(n-1)/2; the `1 / 2` self-pair weight is shown to be integer 0 (open finding). A text comparison checks that similarity.c was generated from the verified .pyx lines. All numerical clauses on the installed binary: bounded oracle tier.",
+        'extraction drops: types, memoryviews/strides, refcounts, GIL, BLAS; Cython->C translation and the .so build are assumed; kernel defects cannot be repaired here (no Cython)',
+        'mechanical extraction of kernel expressions + z3 obligations (C semantics stated) + bounded run-time oracles on the binary',
+        'DESIGN.md C15'),
+    chk('C16', 'exploration',
+        "File formats depend on h5py / pickle: real round trips in temporary directories for all object kinds, formats, targets, overwrite modes and post-history objects are bounded run-time oracles. Deductive part: engine A proves the TOTALITY of the HDF5 writer _write_to_group on the real AST per admitted value type (str, ndarray, list, dict, nested dict, None, int, float, bool, tuples): exactly one store under the entry's key, nothing silently dropped.",
+        "h5py, pickle assumed; 4 open findings (unicode arrays, ragged lists, mixed lists, '/' in keys)",
+        'bounded run-time round-trip oracles (stand-in) + ast->z3 totality obligations on the writer',
+        'DESIGN.md C16'),
+    chk('C17', 'other',
+        'Lemma layer (z3 NRA): sqrt is strictly increasing and tie-preserving on non-negatives, positive affine maps preserve order and ties, the clipped-linear map is monotone into [0,1], max(x,0) is monotone -- with the C03 formula contracts these give the invariance clauses; Lean: cosine invariant under positive scaling. Engine B: sqrt_transform = sqrt(max(x,0)) and positive_transform = max(x,0) for all reals under all 27 sign patterns. Ranks, quantile thresholds, geodesic, descriptors, invariance of the real compare(): bounded oracle tier.',
+        'scipy rankdata / np.quantile / networkx assumed; 2 open findings (geodesic drops the minimal edge; positive_transform keeps the measure name)',
+        'z3/Lean lemma layer + engine B + bounded run-time oracles',
+        'DESIGN.md C17'),
+    chk('C18', 'exploration',
+        'The numerical claim depends on LDL / Cholesky / norm.ppf and random draws: bounded run-time oracles. Deductive part: engine A proves make_design for all sizes (np.kron model): condition of observation t is t mod n_cond, partition t div n_cond, length n_cond*n_part; z3 lemma: hence every condition exactly once per partition.',
+        'scipy.linalg.ldl, norm.ppf, RNG assumed; 1 open finding (vector theta breaks calc_rdm of simulated data)',
+        'bounded run-time oracles (stand-in) + ast->z3 obligations on make_design',
+        'DESIGN.md C18'),
+    chk('C19', 'other',
+        'Lemma layer (z3 NRA/LIA): the per-axis pre-filter removes no member of the open ball; sqrt(s) < r <=> s < r^2 (strictness); the 100 chunk cut points floor(k n/100) are monotone from 0 to n and blocks are disjoint (every row written once). Engine A proves for the unchunked branch of get_searchlight_RDMs that dataset c holds exactly the columns neighbors[c] with the event labels as conditions and that the result is the list-calc_rdm labelled by the centres in order. Exact membership for all volumes up to 4x4x5 / all masks up to 8 voxels, chunked branch, n_jobs order: bounded (partly exhaustive) oracle tier.',
+        'joblib.Parallel ordering is an assumed contract (real worker schedules cannot be explored); cdist / meshgrid models',
+        'contract-based deductive verification: sidecar contracts on the real functions, ast->z3 VC generation on the real source (re-read every run), external z3 portfolio + z3 lemma layer + exhaustive small-volume oracles',
+        'DESIGN.md C19'),
+    chk('C20', 'exploration',
+        'Bounded run-time oracles only: BIDS parse / rebuild / look-ups exhaustively over presence/absence of all optional entities x 6 value families, generated Meadows .mat/.json files, fake and real MNE epochs, design matrices, SPM filtering with orthonormal bases. No deductive obligation is discharged for this property in this round (the string-theory encoding of the BIDS grammar was not built); the level says so.',
+        'scipy.io, h5py, nibabel (faked), pandas assumed; 3 open findings',
+        'run-time contracts with spec-function oracles on bounded domains (bounded stand-in; no obligations proved)',
+        'DESIGN.md C20'),
 ]
 
-_PENDING = "contract written in DESIGN.md, machinery for this property not yet built and validated"
-NOT_APPLICABLE = [{"property_id": f"C{i:02d}", "reason": _PENDING} for i in range(1, 21)
-                  if f"C{i:02d}" not in {c['property_id'] for c in CHECKS}]
+NOT_APPLICABLE = []
